@@ -31,6 +31,8 @@ def saliency_patterns(N):
     """none, graded, and (N<=4) every assignment of SAL_VALUES with positive sum."""
     yield ('none',)
     yield ('graded',)
+    yield ('tiny',)
+    yield ('huge',)
     if N <= 4:
         for t in itertools.product(range(len(SAL_VALUES)), repeat=N):
             if any(t):
@@ -42,6 +44,10 @@ def make_sal(pattern, lead, N):
         return None
     if pattern[0] == 'graded':
         return A.graded_saliency(lead, N)
+    if pattern[0] == 'tiny':
+        return A.graded_saliency(lead, N) * 1e-13
+    if pattern[0] == 'huge':
+        return A.graded_saliency(lead, N) * 1e13
     s = np.array([SAL_VALUES[i] for i in pattern[1:]])
     out = np.empty(tuple(lead) + (N,))
     for j, idx in enumerate(np.ndindex(*lead)):
@@ -303,8 +309,19 @@ def run_alternation(key):
     F, D = 3, 3
     N = K * (D + 2) + 2
     integ = model in M.INTEGRATION
-    data, lead = _scene(model, seed, F, K, N, D, ('alt', K))
-    init = A.soft_affiliation(seed, lead, K, N, 'alt', model, K)
+    if alk != 'none':
+        # classes with distinct activity, start = blurred partition permuted per frequency
+        # (a 3-cycle in one bin for K >= 3), so that the aligner really re-orders
+        data, labels = A.clustered_data(seed, (F,), K, N // K, D, 'alt-al', model, noise=0.25)
+        lead = (F,)
+        N = data.shape[-2]
+        init = A.partition_affiliation(labels, K, blur=0.3, lead=lead)
+        perms = [list(range(K)), list(np.roll(np.arange(K), 1)), list(np.arange(K)[::-1])]
+        for f in range(F):
+            init[f] = init[f][perms[f % 3]]
+    else:
+        data, lead = _scene(model, seed, F, K, N, D, ('alt', K))
+        init = A.soft_affiliation(seed, lead, K, N, 'alt', model, K)
     sal = S.make_saliency(lead, N, salk)
     opts = dict(weight_constant_axis=wca)
     ref_opts = dict(wca=wca, saliency=sal)
@@ -436,8 +453,13 @@ def run_alternation(key):
             if bad:
                 return viol(bad)
         transitions += n
+    flags = ['ambiguous'] if ambiguous else ['compared']
+    if alk != 'none' and n > 1:
+        e_aff = np.asarray(M.predict(model, trace[0][1], data))
+        if not np.allclose(np.clip(e_aff, eps, 1 - eps) if eps else e_aff, trace[1][2], atol=1e-6):
+            flags.append('aligner_reordered')
     return ok(outcome=tol.digest(trace[-1][2]), states=states, transitions=transitions,
-              evals=n + 4, traces=1, flags=['ambiguous'] if ambiguous else ['compared'])
+              evals=n + 4, traces=1, flags=flags)
 
 
 # ---------------------------------------------------------------- sub-checks
@@ -529,11 +551,13 @@ def subchecks(tier, seed):
                       'gmm': ('full', 'diagonal', 'spherical'), 'vmfmm': ('default', 'bounds'),
                       'gcacgmm': ('default', 'full', 'diagonal', 'streams', 'trace'),
                       'vmfcacgmm': ('default', 'streams', 'nohermit')}[model]
-            for K in (2, 3):
+            for K in (2, 3, 4):
                 for wca in wcas:
                     for salk in ('none', 'graded'):
                         for opt in optmap:
                             for alk in ('none', 'greedy', 'dhtv'):
+                                if K == 4 and (alk == 'none' or model == 'cbmm'):
+                                    continue
                                 if alk != 'none' and (model not in ('cacgmm', 'cwmm', 'cbmm')
                                                       or wca not in ((-3,), (-3, -1))):
                                     continue
@@ -547,5 +571,5 @@ def subchecks(tier, seed):
                     alt_cases, run_alternation,
                     bound=dict(iterations=n, note='state = traced (affiliation, quadratic form, model) of one '
                                'iteration; transition = one reference E/M step compared with the traced one'),
-                    require_flags=('compared',)))
+                    require_flags=('compared', 'aligner_reordered')))
     return subs
